@@ -38,6 +38,12 @@ def spec (d : Driver.Daser.DState) (op : String) (obs : String) : String :=
     | .bad => "specfail C33/unparsed"
     | .noop => if obs == "noop" then "specok" else "specfail C33/acted-on-noop"
     | .rejected => if obs == "storeerr" then "specok" else "specfail C33/acted-on-noop"
+    | .badAns _ _ =>
+      match Driver.Daser.parseToks obs with
+      | none => "specfail C33/unparsed"
+      | some toks =>
+        if specBadAnswer (view33 s) toks then "specok"
+        else "specfail C33/after-bad-answer the worker went on sampling (or marked a block) after an answer that is neither a sample nor a timeout"
     | .ev e =>
       match Driver.Daser.parseToks obs with
       | none => if obs == "panic" then "specfail C33/panic the harness panicked" else "specfail C33/unparsed"
